@@ -138,10 +138,25 @@ class Batch:
                     self.build_errors[m2.group(1)] = line + "\n"
             if not bad:
                 raise RuntimeError("go build of the batch failed without a per-package diagnosis:\n" + (out + err)[-3000:])
+        # gofmt canonical form and go vet (type check), per generated file
+        self.fmt_bad, self.vet_bad = set(), {}
+        rcf, outf, errf = C.run(["gofmt", "-l", "pkgs"], cwd=self.dir, env=C.GOENV, timeout=600)
+        for line in outf.split("\n"):
+            m = re.match(r"pkgs/(p\d+)/parser\.go", line.strip())
+            if m:
+                self.fmt_bad.add(m.group(1))
+        if getattr(self, "want_vet", False):
+            rcv, outv, errv = C.run(["go", "vet", "./pkgs/..."], cwd=self.dir, env=C.GOENV, timeout=900)
+            for line in (outv + errv).split("\n"):
+                m = re.match(r"(?:vet: )?(?:\./)?pkgs/(p\d+)/parser\.go:(.*)", line.strip())
+                if m:
+                    self.vet_bad.setdefault(m.group(1), m.group(2)[:200])
         imports, table = [], []
         for key in good:
             it = self.items[key]
             it["compiles"] = it["pkg"] not in bad
+            it["gofmt_clean"] = it["pkg"] not in self.fmt_bad
+            it["vet_error"] = self.vet_bad.get(it["pkg"])
             if it["compiles"]:
                 imports.append('\t%s "batch/pkgs/%s"' % (it["pkg"], it["pkg"]))
                 table.append("\t%d: {%s.VRun, %s.VNil}," % (it["idx"], it["pkg"], it["pkg"]))
